@@ -425,6 +425,32 @@ pub fn silence_sweep(rep: &mut Report) {
             }
             rep.seen_str("silence_distinct_words_applied", &format!("{}:{}", code, w));
         }
+        // compounds of two vocabulary words (hyphenated, and glued for the splitter languages) in digit states that
+        // include occupied thousands / millions: the rare refusal paths of the compound branch
+        let base: Vec<&String> = lex.number_words.iter().filter(|w| !w.contains('-') && w.chars().count() <= 12).take(70).collect();
+        let states: [&[u8]; 8] = [b"", b"2", b"21", b"100", b"14000", b"200000", b"2000000", b"5"];
+        for w1 in &base {
+            for w2 in &base {
+                let forms: [String; 2] = [format!("{}-{}", w1, w2), format!("{}{}", w1, w2)];
+                for (fi, w) in forms.iter().enumerate() {
+                    if fi == 1 && !matches!(code, "de" | "nl" | "it") {
+                        continue;
+                    }
+                    for (si, st) in states.iter().enumerate() {
+                        let mut b = DigitString::new();
+                        if !st.is_empty() {
+                            let _ = b.put(st);
+                        }
+                        if si == 7 {
+                            b.freeze();
+                        }
+                        let _ = api.apply(w, &mut b);
+                        rep.evaluations += 1;
+                    }
+                }
+            }
+        }
+        rep.add("silence_compounds_applied", (base.len() * base.len()) as u64);
         let mut ns: Vec<u64> = (0..200).collect();
         ns.extend((2..10).map(|h| h * 100));
         ns.extend([1000, 1100, 1900, 2000, 21000, 100000, 1000000, 2000000, 1000000000]);
